@@ -186,6 +186,11 @@ fn trees(three: bool) -> Vec<(E, bool)> {
                 for o in [Bin::Eq, Bin::Add, Bin::Mul, Bin::And, Bin::Lt] {
                     out.push((E::Bin(o, b(col("j")), b(e.clone())), false));
                     out.push((E::Bin(o, b(e.clone()), b(col("j"))), false));
+                    // a unary / postfix form around a binary operator one of whose operands carries another one
+                    // (`NOT -i = j`, `-(i::int + j)`, `(NOT i IS NULL) AND j`): a run of prefix operators in front of a
+                    // binary operator
+                    out.push((wrap(k2, E::Bin(o, b(wrap(k1, a.clone())), b(col("j")))), false));
+                    out.push((wrap(k2, E::Bin(o, b(col("j")), b(wrap(k1, a.clone())))), false));
                 }
             }
         }
